@@ -623,7 +623,7 @@ def _enclosing_calls(root, target):
     return [c for c in out if not (isinstance(c.func, ast.Attribute) and c.func is target) and c.func is not target]
 
 
-@rule("R01.2", ["C01", "C05"], "T-FUN", floor=16)
+@rule("R01.2", ["C01", "C05", "C04", "C02"], "T-FUN", floor=16)
 def r01_2(ctx):
     """Acknowledgement coverage: for every ackNum a in 0..7, _handle_ack completes exactly the open pending frames
     f with f in {a - k mod 8 | 1 <= k <= TX_K} (with True) and leaves completed futures alone."""
@@ -634,7 +634,10 @@ def r01_2(ctx):
     cls = ash_cls(ctx)
     K = const(ctx, ASH, "TX_K", int)
     for done in (False, True):
-        px = PX(repo, inline=inline_ash(), models=[("*.done", lambda px, t, a, k, fr: done)])
+        # a future that is done here completed with a result (it was acknowledged but its waiter has not run yet): it is
+        # done, not cancelled, and completing it again raises InvalidStateError
+        px = PX(repo, inline=inline_ash(), models=[("*.done", lambda px, t, a, k, fr: done), ("*.cancelled", lambda px, t, a, k, fr: False),
+                                                   ("*.set_result", Outcomes(RAISE("InvalidStateError")) if done else Outcomes(OK(None)))])
         for a in range(8):
             def setup():
                 return (self_obj(cls, {"_pending_data_frames": {i: fut(f"fut{i}") for i in range(8)}}),
@@ -642,7 +645,7 @@ def r01_2(ctx):
 
             for p in px.explore(f, setup):
                 ctx.case(8)
-                got = {e.callee for e in p.events if e.kind == "call" and e.what.endswith(".set_result")}
+                got = {e.callee for e in p.events if e.kind == "call" and e.what.endswith(".set_result") and not str(e.extra).startswith("raises")}
                 want = set() if done else {f"fut{(a - k) % 8}.set_result" for k in range(1, K + 1)}
                 exc = [e for e in p.events if e.kind == "call" and e.what.endswith(("set_exception", ".cancel"))]
                 ctx.require(p.terminal == "return" and got == want and not exc, f"ack={a},done={done}",
